@@ -688,6 +688,12 @@ class Agg:
         return out
 
 
+def _case_seed(case, seed):
+    import zlib
+    key = "|".join(str(case.get(k)) for k in ("kind", "seq", "subset", "box", "scale", "title")) + f"|{seed}"
+    return zlib.crc32(key.encode()) & 0x7FFFFFFF
+
+
 def _size(case):
     return len(case.get("seq", "")) + len(case["subset"])
 
@@ -726,6 +732,8 @@ def task_synthetic(maxlen, first, second, box, ti, seed):
                 for scale in (SCALES if sub else SCALES[:1]):
                     case = {"kind": "synthetic", "seq": seq, "subset": sub, "box": kind, "scale": scale,
                             "title": ti, "load_order": order, "system_gro": texts["sys"]}
+                    case["rseed"] = _case_seed(case, seed)
+                    np.random.seed(case["rseed"])      # the free rotation of small references is replayable per case
                     try:
                         agg.add(run_case(files, model, order, sub, scale, d), case)
                     except Harness as e:
@@ -787,6 +795,8 @@ def task_shipped(subset_list, scales, seed):
         for sub in subset_list:
             for scale in (scales if sub else scales[:1]):
                 case = {"kind": "shipped", "subset": sub, "scale": scale, "load_order": order}
+                case["rseed"] = _case_seed(case, seed)
+                np.random.seed(case["rseed"])
                 try:
                     agg.add(run_case(files, model, order, sub, scale, d), case)
                 except Harness as e:
@@ -991,7 +1001,7 @@ def replay(prop, cex):
                         r["note"] = f"failed obligation {cex.get('obligation') or cex.get('signature')} manifests on the real Manager.extrapolate_system"
                         return r
         return {"reproduced": False, "inputs": cex, "note": "no failing run found in the bounded scope"}
-    np.random.seed(2024)
+    np.random.seed(int(cex.get("rseed", 2024)))
     clause = cex.get("clause")
     d = tempfile.mkdtemp(prefix="c05r_")
     try:
